@@ -263,17 +263,10 @@ func (it *strIter) next(i *Interp) tuple {
 		it.pos += w
 		return tuple{c.True, c.Const(smt.BV(64), uint64(k)), c.Const(smt.BV(32), uint64(uint32(r)))}
 	}
-	b := it.s.at(c, it.pos)
-	if !b.IsConst() {
-		if !i.decide(c.ULT(b, c.Const(bv8, 0x80)), "range-string-ascii") {
-			i.abort(stInconclusive, "non-ASCII symbolic byte in range over string")
-		}
-	} else if b.C >= 0x80 {
-		i.abort(stInconclusive, "non-ASCII byte in partially symbolic string range")
-	}
+	ru, w := i.decodeRuneAt(it.s, it.pos)
 	k := it.pos
-	it.pos++
-	return tuple{c.True, c.Const(smt.BV(64), uint64(k)), c.ZExt(b, 32)}
+	it.pos += w
+	return tuple{c.True, c.Const(smt.BV(64), uint64(k)), ru}
 }
 
 func decodeRune(s string) (rune, int) {
